@@ -14,7 +14,7 @@ func c11Value(id string) (doc []byte, kind string, i int64, s string) {
 		i = verif.Int64(id + ".int")
 		return verif.JInt(i), "int", i, ""
 	case 1:
-		s = verif.StringIn(id+".str", 4, "0-9a.-")
+		s = verif.StringIn(id+".str", verif.L(4), "0-9a.-")
 		return verif.JStr(s), "str", 0, s
 	case 2:
 		return verif.JRaw("1.5"), "fraction", 0, ""
@@ -173,7 +173,7 @@ func VerifC11TimeDecoder() {
 		iv = verif.IntRange("value.int", -62135596800, 253402300799)
 		v, kind = verif.JInt(iv), "int"
 	case 1:
-		v, kind = verif.JStr(verif.StringIn("value.str", 12, "0-9T:Z-")), "str"
+		v, kind = verif.JStr(verif.StringIn("value.str", verif.L(12), "0-9T:Z-")), "str"
 	case 2:
 		v, kind = verif.JRaw("1.5"), "fraction"
 	case 3:
@@ -218,7 +218,7 @@ func VerifC11BinderRejectsTrailingData() {
 	if custom {
 		key = "name" // Int64Msg{name}
 	}
-	first := verif.JObj(key, verif.JStr(verif.String("text", 2)))
+	first := verif.JObj(key, verif.JStr(verif.String("text", verif.L(2))))
 	body := first
 	trailing := verif.Bool("trailing")
 	if trailing {
